@@ -56,6 +56,7 @@ theorem ErrExt.mods {T a a'} (h : ErrExt T a a') : a'.mods = a.mods := by obtain
 theorem ErrExt.buf {T a a'} (h : ErrExt T a a') : a'.buf = a.buf := by obtain ⟨_, e, _⟩ := h; subst e; rfl
 theorem ErrExt.fail {T a a'} (h : ErrExt T a a') : a'.fail = a.fail := by obtain ⟨_, e, _⟩ := h; subst e; rfl
 theorem ErrExt.w {T a a'} (h : ErrExt T a a') : a'.w = a.w := by obtain ⟨_, e, _⟩ := h; subst e; rfl
+theorem ErrExt.wAny {T a a'} (h : ErrExt T a a') : a'.wAny = a.wAny := by obtain ⟨_, e, _⟩ := h; subst e; rfl
 theorem ErrExt.nAccepted {T a a'} (h : ErrExt T a a') : a'.nAccepted = a.nAccepted := by
   obtain ⟨_, e, _⟩ := h; subst e; rfl
 
@@ -99,6 +100,18 @@ theorem checkDepartures_ext (cfg : Cfg) (a : A) (md : Option Nat) (evs : List Ev
     · exact ErrExt.refl _ _
     · exact errExt_chk _ _ _ _ _ (by simp)) _ _)
   exact h6.foldl _ _ (fun x y => errExt_foldl _ _ (fun x' y' => errExt_chk _ _ _ _ _ (by simp)) _ _)
+
+/-- from the state with the second writable set installed back to the state itself -/
+theorem errExt_any {T : List String} {a D : A} {v : List Nat} (h : ErrExt T ({ a with wAny := v } : A) D) :
+    ErrExt T a ({ D with wAny := a.wAny } : A) := by
+  obtain ⟨new, e, t⟩ := h
+  exact ⟨new, by rw [e], t⟩
+
+theorem checkDeparturesAny_ext (cfg : Cfg) (a : A) (o : Option (List Nat)) (md : Option Nat) (evs : List Ev) :
+    ErrExt ["C07", "C14"] a (checkDeparturesAny cfg a o md evs) := by
+  cases o with
+  | none => exact checkDepartures_ext cfg a md evs
+  | some v => exact errExt_any (checkDepartures_ext cfg _ md evs)
 
 theorem checkAcks_ext (cfg : Cfg) (a : A) (u : Nat) (expect : Bool) (evs : List Ev) :
     ErrExt ["C19"] a (checkAcks cfg a u expect evs) := by
